@@ -7,4 +7,5 @@ python3 tools/extract.py
 python3 tools/gen_dispatch.py harness/src/dispatch.rs
 (cd lean && lake build Plonk driver)
 (cd harness && cp -n /repo/Cargo.lock Cargo.lock 2>/dev/null || true; cargo build --offline --release && cargo build --offline --profile checked)
+(cd harness-alloc && cp -n /repo/Cargo.lock Cargo.lock 2>/dev/null || true; cargo build --offline --release)
 echo "setup ok"
